@@ -118,6 +118,10 @@ def run(ctx):
                       key=f"{owner}: {k.split(' stored in ')[0]} not released", node=program.func(rels[0]), rel=rels[0].split("::")[0],
                       sample={"acquired_at": program.loc(uid.split("::")[0], n)})
 
+    ctx.rule("R09.7", "a service registration is released exactly when its last declaring function goes away (reference-count transition table)", floor=20)
+    from .c12 import refcount_table
+    refcount_table(ctx, program, "R09.7")
+
     ctx.rule("R09.2", "cleanup loops that release per element never return or break on a missing element", floor=3)
     loops = 0
     for u in program.functions():
